@@ -63,7 +63,8 @@ PROPS = {
             "IntoIter32::next, ExactSizeIterator::len (src/bitset.rs)",
             "DiffSwitchMeta::{new, update, explicit_case_bitmasks, switch_from_explicit_cases} (src/diff_switch_utils.rs)",
             "select_diff_switch_case (src/diff_switch_utils.rs)",
-            "DiffFlagDefs::{difficulty_bits, aux_bits} (src/context/diff_flags.rs): the flag partition only",
+            "DiffFlagDefs::{difficulty_bits, aux_bits} (src/context/diff_flags.rs): the flag partition; mask_to_diff_label / "
+            "parse_diff_string only for the two masks whose label contains no flag name (0xFF and the default-on set)",
         ],
         "unverified": [
             "FIRST SENTENCE OF THE PROPERTY (label string <-> mask under every flag-definition set): DiffFlagDefs is two BTreeMaps "
